@@ -201,15 +201,19 @@ def width_W(prog, stmt):
 
 
 # ----------------------------------------------------------------------------- generators
-def below_decimals(limit=400000, count=60):
-    """decimals n/10^5 whose double product lies just below n (truncation would lose one unit): 0.29, 0.57, 0.58, 1.13, ..."""
-    out = []
+def below_decimals(count=80):
+    """decimals n/10^5 whose double product lies just below n (truncation would lose one unit): 0.29, 0.57, 0.58, 1.13,
+    1.15, ... -- the named ones first, then a scan with growing strides"""
+    cand = [29000, 57000, 58000, 113000, 115000, 116000, 201000, 402000, 1001000, 1009000, 2**31 - 1]
     n = 1
-    while len(out) < count and n < limit:
-        if int(dec_float(n) * FB) != n:
+    while n < 3 * 10**7:
+        cand.append(n)
+        n += 1 if n < 200 else (997 if n < 10**6 else 99991)
+    out = []
+    for n in cand:
+        if int(dec_float(n) * FB) != n and n not in out:
             out.append(n)
-        n += 1 if n < 3000 else 997
-    return out
+    return out[:count]
 
 
 BELOW = below_decimals()
